@@ -424,7 +424,8 @@ def keyring_model_group(junction_link=False):
             for c in cs + fp.model_constraints():
                 ctx.solver.add(c)
             r = fp.SM.L(rows)
-            claims = [(r - 1) * dt < Dv * T * sf * (1 + z3.RealVal("1/1000000000")), r * dt >= Dv * T * sf * (1 - z3.RealVal("1/1000000000"))]
+            # the duration in years is value x timescale (the calibration factor is already part of the parameter value, C06)
+            claims = [(r - 1) * dt < Dv * T * (1 + z3.RealVal("1/1000000000")), r * dt >= Dv * T * (1 - z3.RealVal("1/1000000000"))]
             if not junction_link:
                 claims.append(r >= 1)
             ob = ctx.prove("rows_cover_the_duration_and_no_more", z3.And(*claims), meta=dict(key="rows_general_model"))
